@@ -145,6 +145,9 @@ pub fn uncommitted(s: &mut Src, sh: &Shape, lens: &[usize]) {
         if lens[i] > 0 {
             e.data = vec![1u8; lens[i]];
         }
+        // proposals carry an application context; only payload (data) bytes are budgeted,
+        // symmetrically on admission and on refund
+        e.context = vec![9u8; 3];
         total += lens[i] as u64;
         ents.push(e);
         i += 1;
